@@ -1,6 +1,6 @@
 """Property -> rules."""
 
-from . import rules_rta, rules_fp, rules_sib, rules_ros2
+from . import rules_rta, rules_fp, rules_sib, rules_ros2, rules_total, controls
 from .rta_model import ANALYSES
 
 FP = [p for p in ANALYSES if p.startswith('fixed_priority::')]
@@ -156,7 +156,60 @@ def ros2_prop(which, mode, prop, floor):
     return run
 
 
+def c20(ctx, rep):
+    dbg = ctx.crate('dbg')
+    rel = ctx.crate('rel')
+    for a in COMMON_ASSUMPTIONS[:2]:
+        rep.assume(a)
+    rep.assume('additions and multiplications overflow only near 2^64: all time values are assumed < 2^62')
+    rep.assume('vetted invariants (spec/vetted_sites.json, LOOP_VETTED) are the papers\' busy-window facts, documented '
+               'preconditions and constructor checks; that they hold is not decided')
+    rep.assume('items of steps_iter are >= 1 (C11\'s clause; the one implementation that breaks it is the known finding)')
+    rep.rule('SITE', 'every raw subtraction / index / unwrap / division / reachable panic, enumerated from the typed HIR in both '
+                     'build configurations, is implied safe by its path condition (linear reasoning over non-negative '
+                     'roots) or carries a vetted invariant; anything else is a violation')
+    rep.rule('TERM', 'every loop matches a strict-progress pattern or a vetted termination argument; every draining consumer '
+                     'sees a bounded iterator; no next/peek/any over filter(infinite source)')
+    rep.rule('PROFILE', 'every function (and closure) computes the same canonical term in the debug and the release '
+                        'configuration, modulo one vetted identity wrapper; debug-only code does not assign')
+    vetted = rules_total.load_vetted()
+    counts = {}
+    nb = rules_total.check_sites(rep, dbg, 'dbg', vetted, counts)
+    nb2 = rules_total.check_sites(rep, rel, 'rel', vetted, counts)
+    l1, c1 = rules_total.check_term(rep, dbg, 'dbg')
+    l2, c2 = rules_total.check_term(rep, rel, 'rel')
+    np_, nd = rules_total.check_profile(rep, dbg, rel)
+    rules_total.check_debug_regions(rep, dbg)
+    # positive / negative controls on the fixtures crate (same driver, same rules, empty vetted table)
+    fd, fr = ctx.fixtures('dbg'), ctx.fixtures('rel')
+    col = controls.Collector()
+    rules_total.check_sites(col, fd, 'dbg', {}, {})
+    rules_total.check_sites(col, fr, 'rel', {}, {})
+    controls.expect(rep, col, 'SITE', ['bad_raw_sub', 'bad_filter_map_sub', 'bad_index', 'bad_index_minus_one', 'bad_unwrap', 'bad_assert'],
+                    ['good_guarded_sub', 'good_early_return_sub', 'good_filter_map_sub', 'good_index', 'good_loop_index', 'good_unwrap'], 'SITE')
+    col = controls.Collector()
+    rules_total.check_term(col, fd, 'dbg')
+    controls.expect(rep, col, 'TERM', ['bad_unbounded_search', 'bad_drain_infinite', 'bad_loop_no_progress'],
+                    ['good_bounded_search', 'good_drain_bounded', 'good_loop_progress'], 'TERM')
+    col = controls.Collector()
+    rules_total.check_profile(col, fd, fr)
+    controls.expect(rep, col, 'PROFILE', ['bad_profile_dependent'], ['good_profile_independent'], 'PROFILE')
+    rep.extra['site_counts'] = counts
+    rep.extra['vetted_table_entries'] = len(vetted)
+    rep.floor('function bodies analysed (dbg)', nb, 200)
+    rep.floor('panic-capable sites (both configurations)', sum(counts.values()), 200)
+    rep.floor('loops', l1, 15)
+    rep.floor('iterator consumers', c1, 45)
+    rep.floor('functions compared across profiles', np_, 200)
+    return ('Static enumeration, in a debug (assertions + overflow checks) and a release configuration, of every '
+            'panic-capable site, loop and iterator consumer of /repo from its type-checked HIR, with path-condition '
+            'discharge; plus a term-level comparison of every function between the two configurations. Decides: no new '
+            'un-guarded panic site, no unbounded loop/iterator outside the vetted list, no dependence of computed values '
+            'on debug-only code. Does NOT decide that the vetted invariants hold, nor floating-point behaviour.')
+
+
 PROPS = {
+    'C20': c20,
     'C04': ros2_prop(['ecrts19'], 'safe', 'C04', 40),
     'C05': ros2_prop(['rr', 'bw'], 'safe', 'C05', 25),
     'C07': ros2_prop(['ecrts19', 'rr', 'bw'], 'exact', 'C07', 65),
